@@ -457,25 +457,26 @@ class SATEncoder:
             if not active_lits:
                 continue
 
-            if len(active_lits) <= 10:
-                self._encode_capacity_constraint(active_lits, active_demands, capacity)
+            self._encode_capacity_constraint(active_lits, active_demands, capacity)
 
     def _encode_capacity_constraint(self, lits: list[int], demands: list[int], capacity: int) -> None:
         """Encode sum constraint: if all lits true, demands sum must <= capacity."""
-        n = len(lits)
-        for size in range(1, n + 1):
-            for subset in combinations(range(n), size):
-                if sum(demands[i] for i in subset) > capacity:
-                    is_minimal = True
-                    for smaller_size in range(1, size):
-                        for smaller in combinations(subset, smaller_size):
-                            if sum(demands[i] for i in smaller) > capacity:
-                                is_minimal = False
-                                break
-                        if not is_minimal:
-                            break
-                    if is_minimal:
-                        self._clauses.append([-lits[i] for i in subset])
+        # Enumerate minimal overloading subsets depth-first, heaviest first: a subset is
+        # extended only while it still fits, so the work is bounded by the subsets that fit
+        order = sorted(range(len(lits)), key=lambda i: -demands[i])
+
+        def extend(start: int, chosen: list[int], load: int) -> None:
+            for pos in range(start, len(order)):
+                i = order[pos]
+                if demands[i] <= 0:
+                    continue
+                if load + demands[i] > capacity:
+                    # i is the lightest member (heaviest first), so dropping any member fits
+                    self._clauses.append([-lits[k] for k in chosen] + [-lits[i]])
+                else:
+                    extend(pos + 1, chosen + [i], load + demands[i])
+
+        extend(0, [], 0)
 
     # Constraint dispatcher
 
